@@ -337,6 +337,17 @@ class Calls:
         for cl in decl.get("ensures"):
             for part in (cl.extra.get("caller_view") if cl.extra.get("trace") else [cl.ast]):
                 st.assume(to_bool(ctx2.eval(part)))
+        try:
+            for (pcl, pch) in self.promises_of(st, decl, name, args, extra_names=rn):
+                if not isinstance(pch.nil, bool):
+                    st.assume(z3.Not(to_bool(pch.nil)))     # a promised channel exists (proved on the callee: blocking[promises:...])
+                self.promise(st, pch)
+        except (SpecError, Unsupported):
+            pass
+        if self.cur is not None and not self.quiet and self.cur["decl"].get("prompt") and name in self.may_block_funcs() and not decl.get("prompt"):
+            o = self.obl("blocking", "prompt-callee:%s" % short(name).rsplit(".", 1)[-1], self.cur["decl"].get("prompt")[0].tags or None)
+            o.instances += 1
+            o.failed.append({"pos": pos, "reason": "%s can wait on a channel and is not declared `prompt`" % short(name)})
         kind = "call"
         if "pure" in flags or "effectfree" in flags:
             kind = None
@@ -509,7 +520,10 @@ class Calls:
     def do_send(self, fr, st, ins):
         ch = self.operand(fr, st, ins["args"][0])
         v = self.operand(fr, st, ins["args"][1])
-        self.on_block(fr, st, ins, [("send", ch)], True)
+        if isinstance(ch, ChanV) and self.send_is_nonblocking(st, ch):
+            self.promise(st, ch)        # buffered, not full: the send completes at once and the value is there for a receiver
+        else:
+            self.on_block(fr, st, ins, [("send", ch)], True)
         st.log("send", [ch, v], [], ins.get("pos"), "chan")
 
     def do_select(self, fr, st, ins):
@@ -554,5 +568,3 @@ class Calls:
     def on_block(self, fr, st, ins, chans, blocking):
         pass
 
-    def on_go(self, fr, st, ins, name, args):
-        pass
